@@ -82,6 +82,13 @@ func check(ind reg.Ind, c Case, frontier bool) engine.Outcome {
 			return o
 		}
 	}
+	if c.Bars.HasGaps() {
+		// a series with missing values (NaN): the length law is all that is claimed
+		o.NonTrivial = n > w
+		o.Class("series_with_gaps")
+		o.Key = fmt.Sprint(c.Cfg, n, "gaps")
+		return o
+	}
 	// the declared idle period is where the documented formula's first value lands
 	if n > w {
 		for j, rs := range ind.Ref(c.Cfg, ind.RefIn(c.Bars)) {
@@ -210,7 +217,11 @@ func prop(ind reg.Ind) engine.Prop[Case] {
 			if rapid.IntRange(0, 9).Draw(t, "long") == 0 {
 				n = rapid.IntRange(0, 3*w+30).Draw(t, "n2")
 			}
-			return Case{Cfg: cfg, Bars: gen.GenBarsOf(t, n, rapid.SampledFrom([]string{"walk", "walk", "ties", "zeros", "flat"}).Draw(t, "class")), K: rapid.IntRange(0, 1000).Draw(t, "k"), Q: rapid.IntRange(0, 4000).Draw(t, "q")}
+			c := Case{Cfg: cfg, Bars: gen.GenBarsOf(t, n, rapid.SampledFrom([]string{"walk", "walk", "ties", "zeros", "flat"}).Draw(t, "class")), K: rapid.IntRange(0, 1000).Draw(t, "k"), Q: rapid.IntRange(0, 4000).Draw(t, "q")}
+			if rapid.IntRange(0, 7).Draw(t, "with_gaps") == 0 {
+				c.Bars = gen.WithGaps(t, c.Bars)
+			}
+			return c
 		},
 		Check: func(c Case) engine.Outcome { return check(ind, c, true) },
 	}
